@@ -1,5 +1,6 @@
 import TrippyVerif.Props.Stack
 import TrippyVerif.Props.Termination
+import TrippyVerif.Props.C19Strat
 /-!
 # C09 liveness for the whole stack
 
@@ -156,7 +157,43 @@ theorem run_exactly_n_rounds {F : Type} [Agg.Num F] (k : TracerCfg) (hc : CfgOk 
     · show (Props.Stack.published (Stack.loop k.strat st0 envs).2.1).length = n
       rw [← h1]; exact h2.2 h
 
+
+/-- **C19 for the whole stack: every other configuration never sees checksums.**  Unless the trace is
+    Dublin over IPv4, no entry of any round `Tracer::run` publishes — whatever arrives on the sockets —
+    carries a UDP checksum pair; by `C19.status_unchanged_without_checksums` every hop of the `State`
+    therefore keeps the `NotApplicable` it starts with (`C19.fresh_hop_not_applicable`). -/
+theorem loop_rounds_without_checksums {F : Type} [Agg.Num F] {c : Cfg} (hc : CfgOk c)
+    (hna : c.strat ≠ .dublin ∨ c.v6 = true) : ∀ (envs : List Env) (st : St F), Reach c st.ts →
+    ∀ r ∈ Props.Stack.published (Stack.loop c st envs).2.1, ∀ sl ∈ r.probes, Reagg.ckPair sl = none := by
+  intro envs
+  induction envs with
+  | nil => intro st _ r hr; simp [Stack.loop, Props.Stack.published] at hr
+  | cons e es ih =>
+    intro st hs r hr
+    unfold Stack.loop at hr
+    by_cases hf : finished st.ts c.maxRounds = true
+    · simp [hf, Props.Stack.published] at hr
+    · simp only [hf, Bool.false_eq_true, if_false] at hr
+      cases hi : Stack.iter c st e with
+      | panic => simp [hi, Props.Stack.published] at hr
+      | err er => simp [hi, Props.Stack.published] at hr
+      | ok v =>
+        obtain ⟨st', o⟩ := v
+        obtain ⟨ro, hit, _, _⟩ := Stack.iter_refines hi
+        have hs' : Reach c st'.ts := .step _ _ hs hit
+        simp only [hi, Props.Stack.published, List.filterMap_cons] at hr
+        cases hp : o.published with
+        | none =>
+          simp only [hp] at hr
+          exact ih st' hs' r (by simpa [Props.Stack.published] using hr)
+        | some r0 =>
+          simp only [hp, List.mem_cons] at hr
+          rcases hr with rfl | hr
+          · exact C19Strat.published_round_without_checksums hc hna hs hit r (by simpa using hp)
+          · exact ih st' hs' r (by simpa [Props.Stack.published] using hr)
+
 #print axioms loop_returns_from
+#print axioms loop_rounds_without_checksums
 #print axioms loop_round_count
 #print axioms loop_exactly_n_rounds
 #print axioms run_exactly_n_rounds
